@@ -327,6 +327,30 @@ class ModelCases(Suite):
                     w[G.wire(f)] = v
                     out.append({"cls": cid, "mode": "edge-str", "wire": w})
                 k += 1
+            # directed: constants harvested from the SOURCE of the class's module (dict keys/values,
+            # comparison operands, Literal arguments, defaults) with spelling variants, at every open
+            # string position — a hook that rewrites particular values is only hit by those values
+            M = schema_h.magic().get(cid, {"strs": [], "imported": [], "ints": []})
+            imported = M["imported"] if budget != "quick" else rng.sample(M["imported"], min(12, len(M["imported"])))
+            for f in S[cid]["fields"]:
+                if G.with_str(f["ty"], "x") is not None:
+                    for sval in M["strs"] + imported:
+                        if cid == "Root" and f["name"] == "uri":
+                            sval = "file://" + sval
+                        w = G.obj(cid, rng, present={f["name"]}, extras="none")
+                        if cid == "JSONRPCMessage" and G.wire(f) not in w:
+                            continue
+                        w[G.wire(f)] = G.with_str(f["ty"], sval)
+                        out.append({"cls": cid, "mode": "magic", "wire": w})
+                if G.with_str(f["ty"], 0, "int") is not None and not (f.get("constraints") or {}):
+                    for ival in M["ints"]:
+                        w = G.obj(cid, rng, present={f["name"]}, extras="none")
+                        if cid == "JSONRPCMessage" and G.wire(f) not in w:
+                            continue
+                        if cid in ("JSONRPCError", "JSONRPCMessage") and f["name"] == "error":
+                            continue
+                        w[G.wire(f)] = G.with_str(f["ty"], ival, "int")
+                        out.append({"cls": cid, "mode": "magic", "wire": w})
             # aliased members populated; the attribute name of an aliased member as a member name
             for f in G.aliased(cid):
                 for _ in range(2 * seeds):
@@ -341,6 +365,17 @@ class ModelCases(Suite):
                     b = {k: v for k, v in base.items() if k != f["alias"]}
                     b[f["name"]] = v2
                     out.append({"cls": cid, "mode": "attr-only", "wire": b})
+        # classes that share their name with another class, once more in the opposite class order
+        # (whatever a backend remembers per class NAME depends on which of them it met first)
+        names = {}
+        for cid in protocol_classes(S):
+            names.setdefault(S[cid]["name"], []).append(cid)
+        for nm, ids in sorted(names.items(), reverse=True):
+            if len(ids) > 1:
+                for cid in reversed(ids):
+                    rng = ctx.sub_rng(self.name, "reorder", cid)
+                    for _ in range(3):
+                        out.append({"cls": cid, "mode": "reorder", "wire": G.obj(cid, rng, extras="random")})
         return out
 
     attr_name_cases = True
@@ -428,3 +463,79 @@ def shrink_json(v, keep=frozenset(), depth=0):
 
 def deep(v):
     return copy.deepcopy(v)
+
+
+class FreshOrder(Suite):
+    """Sequences of validations, each sequence in its own freshly started pair of worker processes:
+    same-named classes in both orders, and seeded shuffles of all protocol classes.  What a backend
+    carries from one call to the next must not change what a later call returns."""
+
+    name = "fresh-order"
+    uses_model = False
+
+    def cases(self, ctx, budget):
+        S = schema_h.schema()
+        G = gen()
+        out = []
+        names = {}
+        for cid in protocol_classes(S):
+            names.setdefault(S[cid]["name"], []).append(cid)
+        groups = [ids for _, ids in sorted(names.items()) if len(ids) > 1]
+
+        def objs(cid, rng, n):
+            full = {f["name"] for f in G.optional_fields(cid)}
+            res = [{"cls": cid, "wire": G.obj(cid, rng, present=full, extras="none")}]
+            for _ in range(n - 1):
+                res.append({"cls": cid, "wire": G.obj(cid, rng, extras="random")})
+            return res
+
+        def users(ids):
+            """classes whose fields refer to one of `ids` (a container exercises the nested class)"""
+            res = []
+            for cid in protocol_classes(S):
+                if cid not in ids and any(("\"cls\": \"%s\"" % i) in __import__("json").dumps(S[cid]["fields"]) for i in ids):
+                    res.append(cid)
+            return res
+
+        for ids in groups:
+            for order in (ids, list(reversed(ids))):
+                rng = ctx.sub_rng(self.name, *order)
+                steps = []
+                for cid in order:
+                    steps += objs(cid, rng, 3)
+                    for u in users([cid]):
+                        steps += objs(u, rng, 2)
+                out.append({"steps": steps, "order": [S[c]["module"].split(".")[-2] + "." + S[c]["name"] for c in order]})
+        for k in range(2 if budget == "quick" else 8):
+            rng = ctx.sub_rng(self.name, "shuffle", k)
+            ids = protocol_classes(S)
+            rng.shuffle(ids)
+            steps = []
+            for cid in ids:
+                steps += objs(cid, rng, 1)
+            out.append({"steps": steps, "order": ["shuffle-%d" % k]})
+        return out
+
+    def impl_batch(self, cases):
+        res = schema_h.fresh_both("validate", [[{"cls": st["cls"], "wire": st["wire"]} for st in c["steps"]] for c in cases])
+        return [{"steps": r} for r in res]
+
+    def step_oracle(self, step, o):  # overridden per property
+        return None
+
+    def oracle(self, case, o):
+        for i, (st, so) in enumerate(zip(case["steps"], o["steps"])):
+            r = self.step_oracle(st, so)
+            if r is not None:
+                key, what, exp = r
+                return (key, f"step {i + 1} of {len(case['steps'])} in a fresh process ({', '.join(case['order'])}): {what}", exp)
+        return None
+
+    def kind(self, case, o):
+        return "fresh-order/" + "+".join(case["order"])
+
+    def shrink_candidates(self, case):
+        st = case["steps"]
+        for i in range(len(st) - 1, -1, -1):
+            if len(st) > 1:
+                yield {**case, "steps": st[:i] + st[i + 1:]}
